@@ -361,7 +361,17 @@ def exn_code(e):
         return 4
     if isinstance(e, TypeError):
         return 5
+    if isinstance(e, ValueError):
+        return 6
     return 9
+
+
+def name_code(s):
+    """a literal complete-name string ('S:' + text in the cases) -> the model's abstract name: negative when the text does not
+    split into exactly two parts at its dots, >= 100000 otherwise (never a name of a generated table)"""
+    import zlib
+    h = zlib.crc32(s.encode('utf-8', 'replace')) % 100000
+    return -(1 + h) if len(s.split('.')) != 2 else 100000 + h
 
 
 # The TOC cache file format of the library at HEAD, spelled out here on purpose (NOT produced with the library under test, so that
@@ -520,6 +530,8 @@ class Harness:
         self.log[:] = []
 
     def cname(self, n):
+        if isinstance(n, str):              # a literal name string (derived from known names by the generator)
+            return n[2:]
         if n in self.elems:
             return 'g%d.n%d' % (self.elems[n][2], n)
         if self.cfg.get('fixed_groups'):      # session cases: a name is the same string in every session
@@ -597,7 +609,15 @@ class Harness:
     def misc_cb(self, cb):
         def f(name, res):
             e = self.by_cname.get(name)
-            n = e[1] if e else int(name.split('.n')[1])
+            if e:
+                n = e[1]
+            else:
+                try:
+                    n = int(name.split('.n')[1])
+                    if name != 'gx.n%d' % n and not (self.cfg.get('fixed_groups') and name == 'g%d.n%d' % (n % 3, n)):
+                        raise ValueError
+                except (IndexError, ValueError):
+                    n = name_code(name)
             if e is None and res is not None and not isinstance(res, bool):
                 # a value for a name the connected device does not have (callback of an earlier session)
                 self.log.append(('misc', cb, n, [9]))
